@@ -27,9 +27,9 @@
 #include <algorithm>
 using namespace glm;
 #if GLM_CONFIG_SIMD == GLM_ENABLE && GLM_CONFIG_ALIGNED_GENTYPES == GLM_ENABLE
-typedef vec<4, float, aligned_lowp> lvec4; typedef vec<3, float, aligned_lowp> lvec3; typedef vec<4, float, aligned_mediump> mvec4;
+typedef vec<4, float, aligned_lowp> lvec4; typedef vec<3, float, aligned_lowp> lvec3; typedef vec<4, float, aligned_mediump> mvec4; typedef mat<4, 4, float, aligned_mediump> mmat4;
 #else
-typedef vec<4, float, packed_highp> lvec4; typedef vec<3, float, packed_highp> lvec3; typedef vec<4, float, packed_mediump> mvec4;   // reference for the lowp rows: full precision
+typedef vec<4, float, packed_highp> lvec4; typedef vec<3, float, packed_highp> lvec3; typedef vec<4, float, packed_mediump> mvec4; typedef mat<4, 4, float, packed_mediump> mmat4;   // reference for the lowp rows: full precision
 #endif
 static uint64_t st;
 static uint64_t rnd() { uint64_t z = (st += 0x9E3779B97F4A7C15ull); z = (z ^ (z >> 30)) * 0xBF58476D1CE4E5B9ull; z = (z ^ (z >> 27)) * 0x94D049BB133111EBull; return z ^ (z >> 31); }
@@ -111,6 +111,10 @@ int main(int argc, char** argv)
 		A("quat mix lerp slerp", slerp_scale, { quat qn = normalize(q + quat::wxyz(3.f, 0.f, 0.f, 0.f)), pn = normalize(p + quat::wxyz(0.f, 3.f, 0.f, 0.f)); pq(lerp(qn, pn, 0.25f)); pq(mix(qn, pn, 0.25f)); pq(slerp(qn, pn, 0.25f)); })
 		A("mat4_cast / quat_cast", 4.0, { quat qn = normalize(q + quat::wxyz(3.f, 0.f, 0.f, 0.f)); pm(mat4_cast(qn)); pq(quat_cast(mat3_cast(qn))); })
 		A("inversesqrt highp", 1.0, pv(inversesqrt(abs(a) + vec4(0.5f))); { mvec4 m4(abs(a) + vec4(0.5f)); mvec4 r = inversesqrt(m4); pf(r.x); pf(r.y); pf(r.z); pf(r.w); })
+		// mediump is NOT allowed to use the hardware approximations: same tolerance as highp
+		A("mediump inverse determinant", 64.0, { mmat4 Wm(W); mmat4 r = inverse(Wm); for (int i = 0; i < 4; ++i) for (int j = 0; j < 4; ++j) pf(r[i][j]); pf(determinant(Wm)); })
+		A("mediump sqrt divide normalize", 1.0, { mvec4 m4(abs(a) + vec4(0.5f)); mvec4 r = sqrt(m4); pf(r.x); pf(r.y); pf(r.z); pf(r.w); mvec4 d4(abs(b) + vec4(1.f)); mvec4 r2 = m4 / d4; pf(r2.x); pf(r2.y); pf(r2.z); pf(r2.w);
+		  mvec4 nz = normalize(mvec4(a + vec4(0.f, 0.f, 0.f, 3.f))); pf(nz.x); pf(nz.y); pf(nz.z); pf(nz.w); pf(length(m4) / (float)(2 * sa + 2)); })
 		A("compAdd", 4 * sa, pf(compAdd(a)); pf(compMul(clamp(a, -2.f, 2.f))); pf(compMin(a)); pf(compMax(a)))
 		// ---- lowp: hardware approximations allowed
 		// the scale of an L row is the number of chained hardware approximations (inversesqrt = rcp of rsqrt-based sqrt: 2)
